@@ -52,6 +52,10 @@ type Ctx struct {
 	curOps      []string
 	curNontriv  bool
 	Rng         *rand.Rand
+	// Mute: the current case is judged by the MONITORS ONLY — its op lines are kept for the replay
+	// record of a violation but are not sent to the model (the environment of the case does
+	// something the model has no vocabulary for).  Reset at the start of every case.
+	Mute bool
 }
 
 func NewCtx(engine string, seed int64, n int, tier, outDir string) (*Ctx, error) {
@@ -115,6 +119,7 @@ func (c *Ctx) begin(i int, scenario string) {
 	c.curScenario = scenario
 	c.curOps = c.curOps[:0]
 	c.curNontriv = false
+	c.Mute = false
 }
 
 func (c *Ctx) end() {
@@ -152,6 +157,10 @@ func (c *Ctx) Nontrivial() { c.curNontriv = true }
 func (c *Ctx) Emit(op string, out string) {
 	if strings.ContainsAny(op, "\n\r") || strings.ContainsAny(out, "\n\r") {
 		panic("newline in protocol line: " + op + " => " + out)
+	}
+	if c.Mute {
+		c.curOps = append(c.curOps, op+"  => "+out)
+		return
 	}
 	c.ops.WriteString(op)
 	c.ops.WriteByte('\n')
